@@ -52,5 +52,19 @@ let handle = function
       let pr = (rt (opt_id t1), rt (opt_id t2)) in
       let ok = List.for_all (fun q -> let q = path_of q in patched fuel st pr q = look st (snd pr) q) (String.split_on_char ',' probes) in
       if ok then "ok" else "differs"
+  | ["build"; items] ->
+      (* items: path:mode:id;...  -> the tree commit_tree builds, as nested text, and its flattening *)
+      let item x = match String.split_on_char ':' x with
+        | [p; m; i] -> (path_of p, (z_of_hexint m, bytes_of_hex i)) | _ -> failwith "item" in
+      let l = if items = "_" then [] else List.map item (String.split_on_char ';' items) in
+      if not (validb l) then "invalid" else
+      let (rootid, _) = build_ser l in
+      let st = build_store l in
+      let rec show (e : tent) =
+        if is_dir e.t_mode then "(" ^ hexs e.t_name ^ String.concat "" (List.map (fun c -> " " ^ show c) (st e.t_id)) ^ ")"
+        else Printf.sprintf "%s:%s:%s" (hexs e.t_name) (hexint_of_z e.t_mode) (hex_of_bytes e.t_id) in
+      let flat = build_flat l in
+      show { t_name = []; t_mode = z_of_hexint "4000"; t_id = rootid } ^ " | " ^
+      (if flat = [] then "_" else String.concat ";" (List.map (fun (p, (m, i)) -> Printf.sprintf "%s %s %s" (path_str p) (hexint_of_z m) (hex_of_bytes i)) flat))
   | _ -> "EXN bad request"
 let () = serve handle
